@@ -14,25 +14,25 @@ GENERIC = ("; on every library call: plain-argument digests before/after, read-o
 
 
 EXTRA = {
-    "C01": "tiny-entry operands, repeat calls with the same ndarray index objects; 9-13 subsystems; square operators between two factorisations; sparse flags",
+    "C01": "operands beyond size thresholds (vectors of 1025..6000 entries, operators of side 65..160), tiny-entry operands, repeat calls with the same ndarray index objects; 9-13 subsystems; square operators between two factorisations; sparse flags",
     "C02": "narrow integer types, operands of magnitude 1e-16..1e8 against their natural magnitude, 9-13 subsystems, one cvxpy Variable under several factorisations",
-    "C03": "single-number dim forms, rectangular cvxpy Variables, repeat calls, 9-13 subsystems",
-    "C04": "nearly equal left / right Kraus pairs, designed Choi spectra around the documented cut-off, operator magnitudes, repeated operators, kraus_to_choi(sys=1), non-square Choi matrices with dims omitted",
-    "C05": "nested CP list forms, near-Hermitian operators, classical channels, repeated operators, magnitudes 1e-12..1e6",
-    "C06": "mixed int / float / NumPy-float constructor parameters, documented tolerance rule of is_trace_preserving / is_unital, direct-form parameter rejections, non-Hermitian operands, fresh-result history monitor",
-    "C07": "planted unique optima for the pooled classical value, predicate-scaling relation, every order of the NPA levels on one object (tilted CHSH), fractional / mixed predicates",
-    "C08": "classical value of two repetitions against the explicit product game, repeated predicate columns, different outcome labels per party, tol argument",
+    "C03": "rectangular operators on four to six subsystems, tiny-entry operands, single-number dim forms, rectangular cvxpy Variables, repeat calls, 9-13 subsystems",
+    "C04": "Kraus lists of 33..129 operators, nearly equal left / right Kraus pairs, designed Choi spectra around the documented cut-off, operator magnitudes, repeated operators, kraus_to_choi(sys=1), non-square Choi matrices with dims omitted",
+    "C05": "Choi matrices of 65..81 rows with unequal dimensions, Fortran-ordered / strided arguments, nested CP list forms, near-Hermitian operators, classical channels, repeated operators, magnitudes 1e-12..1e6",
+    "C06": "structured non-Hermiticity-preserving maps (Choi matrix non-Hermitian on the diagonal only / in one entry), mixed int / float / NumPy-float constructor parameters, documented tolerance rule of is_trace_preserving / is_unital, direct-form parameter rejections, non-Hermitian operands, fresh-result history monitor",
+    "C07": "answer alphabets 2 against 4 or 5 with planted certain-win strategies below every NPA level, planted unique optima for the pooled classical value, predicate-scaling relation, every order of the NPA levels on one object (tilted CHSH), fractional / mixed predicates",
+    "C08": "player-symmetric games with indefinite cost matrix, classical value of two repetitions against the explicit product game, repeated predicate columns, different outcome labels per party, tol argument",
     "C09": "CGLMP-3 known value at an intermediate NPA level in every spelling of the level string, explicit keep-and-prepare cloning strategy, zero-prior insertion and listing-order invariance",
-    "C10": "row / mixed vector forms, repeated states, exact-zero priors, prior omitted, overlapping pairs at arbitrary list positions",
+    "C10": "unitary-orbit ensembles with equal priors (Toeplitz, non-circulant Gram matrix), row / mixed vector forms, repeated states, exact-zero priors, prior omitted, overlapping pairs at arbitrary list positions",
     "C11": "density-matrix forms, mixed-pair overlap closed form, library PBR constructor against its definition, prior omitted",
-    "C12": "repeated states with the heavier copy later against the ensemble without the lighter copy, orthogonal product states in rotated local bases as a known-value anchor at every level, dimension argument forms",
+    "C12": "pairs of mixed states in a common two-dimensional support, repeated states with the heavier copy later against the ensemble without the lighter copy, orthogonal product states in rotated local bases as a known-value anchor at every level, dimension argument forms",
     "C13": "nearly pure mixed states, graded nearly-equal pairs with a condition-aware Bures tolerance, degenerate commuting pairs, one array object as both arguments, mixed dtypes",
     "C14": "certified S(k) relaxation bound, product-test classifier that replays the library's splits (known finding keyed by mechanism)",
-    "C15": "nearly product NPT states 20..5000 tolerances beyond the threshold, weakly entangled states, rank-four two-qutrit mixtures, ppt flag, omitted / single-number dimension forms; known findings keyed by call class",
-    "C16": "helper contracts on internal calls, explicit-zero signatures, near-parallel columns for spark, documented allclose tolerance rule at scales 1e-4..1e4, non-adjacent violating pairs, designed spectra for the norms, unequal-length majorisation",
+    "C15": "partial transposes with a designed smallest eigenvalue either side of the threshold, X-shaped weakly entangled two-qubit states, nearly product NPT states 20..5000 tolerances beyond the threshold, weakly entangled states, rank-four two-qutrit mixtures, ppt flag, omitted / single-number dimension forms; known findings keyed by call class",
+    "C16": "orthonormal sets with fewer vectors than dimensions, helper contracts on internal calls, explicit-zero signatures, near-parallel columns for spark, documented allclose tolerance rule at scales 1e-4..1e4, non-adjacent violating pairs, designed spectra for the norms, unequal-length majorisation",
     "C17": "fresh-result history monitor on every constructor",
     "C18": "abandoned / interleaved enumerations, non-integer, negative and shuffled labels",
-    "C19": "seed 0 and small seeds, mixed-dtype measured states, row-vector kets, conditioning-aware POVM tolerance",
+    "C19": "ensembles closed under complex conjugation for the pretty-good measurement, seed 0 and small seeds, mixed-dtype measured states, row-vector kets, conditioning-aware POVM tolerance",
     "C20": "complex / negative multiples of channels and CP maps, trace-preserving maps that do not preserve Hermiticity, measure-and-prepare pairs, transpose and affine unital maps, maps that do not preserve Hermiticity, complex homogeneity, unequal dimensions for the channel fidelity of separability",
 }
 
